@@ -371,7 +371,7 @@ theorem consume_sim (F : Frame inpS inpW δ) (hops : OpsSim env.ops inpS inpW δ
             cases he1 : eoi with
             | false => rw [heoi he1] at hh; cases hh
             | true => exact absurd ⟨he1, hil hh⟩ hcl
-        exact ⟨fun he1 hc => hcl ⟨he1, hc⟩, dispatch_end hops hcx1 hm1 hsm hdebt hl hbp hloc⟩
+        exact ⟨fun he1 hc => hcl ⟨he1, hc⟩, dispatch_end hops hcx1 hm1 hsm hdebt hl hbp hloc hK⟩
   | some nd =>
     simp only
     have hns : hasSeq sd = false := cx.ok.mem (by rw [hmem]; rfl)
@@ -440,7 +440,7 @@ theorem consume_sim (F : Frame inpS inpW δ) (hops : OpsSim env.ops inpS inpW δ
               = skip + (inpS.drop ms0.c.nextPos).length by omega]
             exact hsk'⟩)
         rw [show ms0.c.nextPos + 1 + (inpS.drop ms0.c.nextPos).length = ms0.c.nextPos + (1 + (inpS.drop ms0.c.nextPos).length) by omega]
-        exact ⟨fun he1 hc => hcl' ⟨he1, hc⟩, dispatch_end hops hcx1 hm1 (Or.inl rfl) hdebt hl hbp hloc⟩
+        exact ⟨fun he1 hc => hcl' ⟨he1, hc⟩, dispatch_end hops hcx1 hm1 (Or.inl rfl) hdebt hl hbp hloc hK⟩
 
 end
 
